@@ -1864,6 +1864,9 @@ func (x *Exec) callStatic(fr *Frame, fn *ssa.Function, args []Value, bind []Valu
 		}
 	}
 	ghost := x.P.isGhostFn(fn) || (fr != nil && fr.ghost && x.P.isSpecFn(fn))
+	if !ghost && fr != nil && fr.spec != nil && len(fr.spec.Calls) > 0 && x.dry == 0 {
+		x.callSiteClauses(fr, fn, args, pos)
+	}
 	if k := x.P.smtKind(fn); k == "string-uf" {
 		x.assumedCtr["characterised string function: "+name] = true
 		return x.stringUF(fn, args)
@@ -2369,4 +2372,50 @@ func debugStack() string {
 		keep = keep[:8]
 	}
 	return strings.Join(keep, " < ")
+}
+
+// callSiteClauses proves the `call` clauses of the function under contract at a call of fn.
+func (x *Exec) callSiteClauses(fr *Frame, fn *ssa.Function, args []Value, pos token.Pos) {
+	cls := fr.spec.Calls[shortFn(fn)]
+	if len(cls) == 0 {
+		return
+	}
+	var blk *ssa.BasicBlock
+	if x.curCall != nil {
+		blk = x.curCall.Block()
+	}
+	if blk == nil || blk.Parent() != fr.fn {
+		return
+	}
+	li := &LoopInfo{head: blk, key: "call"}
+	saved := x.st
+	for _, c := range cls {
+		gf := x.P.ghostFn(fr.fn.Pkg, c.Ghost)
+		if gf == nil {
+			unsup("ghost function %s for call clause not found (contract unbound)", c.Ghost)
+		}
+		ga := make([]Value, len(gf.Params))
+		for i, p := range gf.Params {
+			found := false
+			for j, q := range fn.Params {
+				if q.Name() == p.Name() && j < len(args) {
+					ga[i], found = args[j], true
+				}
+			}
+			if !found {
+				v, ok := x.binderValue(fr, li, saved, p.Name())
+				if !ok {
+					unsup("call clause %s: cannot bind %q at the call of %s (contract unbound)", c.Label, p.Name(), shortFn(fn))
+				}
+				ga[i] = v
+			}
+		}
+		x.st = saved
+		r := x.callFunction(gf, ga, nil, true)
+		x.st = saved
+		x.curFunc = append(x.curFunc, fnName(fr.fn))
+		x.oblige("P", "call:"+shortFn(fn)+"."+c.Label, term(r), pos)
+		x.curFunc = x.curFunc[:len(x.curFunc)-1]
+	}
+	x.st = saved
 }
